@@ -378,8 +378,9 @@ class _Monitor(Client):
                 t = _kn(t)
                 if False:
                     pass
-                elif (t, p) == (mk_cmp("LtE", ("attr", m.P, "stop"), m.CAP),
-                                True):
+                elif (t, p) in ((mk_cmp("LtE", ("attr", m.P, "stop"), m.CAP),
+                                 True), (mk_cmp("LtE", m.P[2][1], m.CAP),
+                                         True)):
                     info = ("bounded",)
             elif n.kind == "stmt" and isinstance(a, ast.Assign):
                 tg = a.targets[0]
@@ -466,7 +467,7 @@ class _Monitor(Client):
                     t = _kn(view.term(e, n))
                 except AnalysisError:
                     t = None
-                if t == ("attr", self.m.P, "stop"):
+                if t in (("attr", self.m.P, "stop"), self.m.P[2][1]):
                     ok = True
                     owed = (owed[0], True)
                 elif t is not None and t[0] == "const":
@@ -730,7 +731,8 @@ def r2_r3(program, rep):
         for view in owner_views(T, r):
             f = [(_kn(t), p) for t, p in view.all_facts(
                 view.cfg.node_of(r))]
-            if (mk_cmp("Lt", m.CAP, ("attr", P, "stop")), True) in f:
+            if (mk_cmp("Lt", m.CAP, ("attr", P, "stop")), True) in f or \
+                    (mk_cmp("Lt", m.CAP, P[2][1]), True) in f:
                 okr = True
     rep.check(okr, "C05-R2", inst, "running out of the chip's resource "
               "raises InsufficientResourceError", construct="capacity error",
